@@ -60,6 +60,10 @@ type lazyPending struct {
 	only     []string // interface cell: restrict candidate dynamic types
 	elemOnly []string // slice cell: restriction for the elements
 	listOnly []string // *ast.BlockStmt cell: restriction for the statements of its List
+	// a pending marker may be copied by value (struct copies) before it is
+	// read: every copy must materialise to the same value
+	done bool
+	val  value
 }
 
 type lazyIface struct {
@@ -237,6 +241,27 @@ func (i *interpreter) newLazyStruct(T types.Type, path string, depth int, prot b
 }
 
 func (i *interpreter) materialise(p *lazyPending, T types.Type) value {
+	if p.done {
+		switch v := p.val.(type) {
+		case structure:
+			return append(structure(nil), v...)
+		case array:
+			return append(array(nil), v...)
+		}
+		return p.val
+	}
+	v := i.materialise1(p, T)
+	p.done, p.val = true, v
+	switch v := v.(type) {
+	case structure:
+		return append(structure(nil), v...)
+	case array:
+		return append(array(nil), v...)
+	}
+	return v
+}
+
+func (i *interpreter) materialise1(p *lazyPending, T types.Type) value {
 	spec := i.program.Lazy
 	path := i.path
 	if spec != nil && spec.AlwaysNil[p.key] {
